@@ -2,7 +2,8 @@
 From Coq Require Import String.
 From Coq Require Import ZArith List Bool.
 From LasV Require Import Lib.Base Lib.Layout Gen.GenHeaderLayout Gen.GenFormatBits Gen.GenDims Model.Las Model.LasSpec Model.LasFast
-  Proofs.HeaderLen Proofs.VlrProofs Proofs.HeaderProofs Proofs.WriterProofs Proofs.AppendProofs Proofs.LasFastProofs.
+  Proofs.HeaderLen Proofs.VlrProofs Proofs.HeaderProofs Proofs.WriterProofs Proofs.AppendProofs Proofs.LasFastProofs
+  Proofs.CrashProofs Proofs.CrashAppendProofs Proofs.FaultProofs Proofs.FaultAppendProofs.
 Import ListNotations.
 Open Scope list_scope.
 Open Scope Z_scope.
@@ -50,3 +51,49 @@ Theorem C06_truncating_twin : forall s, 0 <= a_pos s ->
   aclose_t s = aclose s.
 Proof. exact aclose_t_eq. Qed.
 Print Assumptions C06_truncating_twin.
+
+(* an append session some of whose chunk writes FAIL (some bytes - none for the faults laspy is judged on when more chunks follow - stored,
+   the call raises, the chunk not counted, the next point write at the same position - Proofs/FaultProofs.v) and which is then continued
+   and closed, the EVLRs re-emitted anywhere at or behind the end of the accepted points: whatever image the destination shows, the final
+   file included, a reader refuses it or gets a prefix of the original points followed by the ACCEPTED chunks - never anything else *)
+Theorem C06_faulted_append : forall ap, ap_ok ap -> (forall s o x, 0 <= ap s o x) ->
+  forall h vl fmt A evl evs f0 f1 hA h1 epos eb k j,
+  wf_las ap h vl fmt A evl -> wf_las ap h vl fmt (A ++ accepted evs) evl ->
+  file_of ap h vl fmt A evl = Ok f0 -> final_hdr ap h vl fmt A evl = Ok hA ->
+  file_of ap h vl fmt (A ++ accepted evs) evl = Ok f1 -> final_hdr ap h vl fmt (A ++ accepted evs) evl = Ok h1 ->
+  enc_vlrs true evl = Ok eb ->
+  let off := aint hA "offset_to_point_data" in
+  off + len (concat A) + len (concat (accepted evs)) <= epos ->
+  reads_prefix_or_fails
+    (crash_from f0 (fault_append_trace (off + len (concat A)) evs epos eb (firstn (Z.to_nat off) f1)) k j)
+    (A ++ accepted evs).
+Proof. exact fault_safe_append. Qed.
+Print Assumptions C06_faulted_append.
+
+(* non-vacuity: a concrete 1.2 file of one point, an append session of two chunks (one empty): byte for byte the one-shot file of the three
+   points; the same session with a torn write in between is described by fault_append_trace *)
+Definition c06_h : assoc := [("version.major", VInt 1); ("version.minor", VInt 2); ("uuid", VBytes (repeat 0 16));
+  ("system_identifier", VBytes [79; 84]); ("generating_software", VBytes []);
+  ("point_format_id", VInt 0); ("point_size", VInt 20); ("scales[0]", VInt 4607182418800017408)]%string.
+Definition c06_ap (s o x : Z) : Z := if x <? 0 then 0 else x.
+Definition c06_r (x b : Z) : list Z := le_enc 4 x ++ repeat 0 10 ++ [b] ++ repeat 0 5.
+Example C06_nonvacuous :
+  match file_of c06_ap c06_h [] 0 [c06_r 5 6] [], file_of c06_ap c06_h [] 0 [c06_r 5 6; c06_r 9 7; c06_r 2 1] [] with
+  | Ok f0, Ok f1 => match arun c06_ap f0 [[c06_r 9 7; c06_r 2 1]; []] with
+                    | Ok f => list_eqb f f1 && (len f1 =? 227 + 60)
+                    | Err _ => false
+                    end
+                    && (len (fault_append_trace 247 [FOk [c06_r 9 7]; FTorn []; FOk [c06_r 2 1]] 287 [] (firstn 227 f1)) =? 4)
+  | _, _ => false
+  end = true.
+Proof. vm_compute. reflexivity. Qed.
+
+(* the binary64 formula inside the model (task AP): ap := ap64, no ap_ok hypothesis, header scalings in the domain *)
+From LasV Require Import Model.F64Bits Proofs.ApInstance.
+Theorem C06_append_equiv_binary64 : forall h vl fmt A evl Bs f0 f1, good_header h ->
+  wf_las ap64 h vl fmt A evl -> wf_las ap64 h vl fmt (A ++ concat Bs) evl ->
+  file_of ap64 h vl fmt A evl = Ok f0 ->
+  file_of ap64 h vl fmt (A ++ concat Bs) evl = Ok f1 ->
+  arun ap64 f0 Bs = Ok f1.
+Proof. exact append_equiv_binary64. Qed.
+Print Assumptions C06_append_equiv_binary64.
